@@ -16,12 +16,14 @@ start node and fuel:
                    the failure record or the history), for runs of any two fuels;
 * `C19_partial`  — whenever the plain parser finishes, the memoizing parser finishes within the same
                    fuel with the same result (same parse tree, or the same rejection) at the same
-                   end position;
+                   end position and with the same furthest-failure record `nm` (= error position);
 * `C19_partial_agree` — any two finished runs (plain / memoizing, any fuels) agree;
-* `C19_partial_accept` — acceptance and the tree coincide at the level of `Parser.parse`.
+* `C19_partial_accept` — at the level of `Parser.parse`: same tree on acceptance, same error position
+                   on rejection.
 
 What is missing for the full property (hence `_partial`):
-* the *error position* (`nm`) on rejection is not covered by the simulation invariant;
+* the converse direction "memoizing parser finishes ⇒ plain parser finishes" (termination of the plain
+  parser is not implied; the real plain parser ends with RecursionError at worst);
 * parser models with a Comment rule;
 * parser models with rule modifiers / eolterm — there the full statement is **false**:
   `C19_full_false` evaluates the mirror on the parser model textX compiles for
@@ -40,7 +42,7 @@ theorem C19_posdet (g : Grammar) (hu : Uniform g) (hm : g.memo = false) (sk : Bo
   ⟨h.1, h.2.1⟩
 
 theorem initState_Qm (g : Grammar) (sk : Bool) (w : List Char) : Qm g sk w (initState sk w) (initState sk w) := by
-  refine ⟨⟨rfl, rfl, rfl, rfl, rfl, rfl, rfl, ?_, ?_⟩, ?_⟩
+  refine ⟨⟨rfl, rfl, rfl, rfl, rfl, rfl, rfl, ?_, ?_⟩, rfl, ?_⟩
   · intro a b h; simp [initState] at h
   · intro a b h; simp [initState] at h
   · intro i p ro np h; simp [initState] at h
@@ -49,16 +51,16 @@ theorem initState_Qm (g : Grammar) (sk : Bool) (w : List Char) : Qm g sk w (init
 theorem C19_partial (g : Grammar) (hu : Uniform g) (hm : g.memo = false) (sk : Bool) (w : List Char)
     (n top : Nat) (r : Res) (t0 : PState)
     (h : parse g n top (initState sk w) = (r, t0)) (hr : r ≠ .fuel) :
-    ∃ t1, parse (g.withMemo true) n top (initState sk w) = (r, t1) ∧ t1.pos = t0.pos := by
+    ∃ t1, parse (g.withMemo true) n top (initState sk w) = (r, t1) ∧ t1.pos = t0.pos ∧ t1.nm = t0.nm := by
   obtain ⟨t1, h1, hq⟩ := memo_sim g hu hm sk w n top _ _ r t0 (initState_Qm g sk w) h hr
-  exact ⟨t1, h1, hq.1.1.symm⟩
+  exact ⟨t1, h1, hq.1.1.symm, hq.2.1.symm⟩
 
 /-- any finished memoizing run agrees with any finished plain run -/
 theorem C19_partial_agree (g : Grammar) (hu : Uniform g) (hm : g.memo = false) (sk : Bool) (w : List Char)
     (n m top : Nat) (r0 r1 : Res) (t0 t1 : PState)
     (h0 : parse g n top (initState sk w) = (r0, t0)) (hr0 : r0 ≠ .fuel)
     (h1 : parse (g.withMemo true) m top (initState sk w) = (r1, t1)) (hr1 : r1 ≠ .fuel) :
-    r1 = r0 ∧ t1.pos = t0.pos := by
+    r1 = r0 ∧ t1.pos = t0.pos ∧ t1.nm = t0.nm := by
   obtain ⟨t1', h1', hp⟩ := C19_partial g hu hm sk w n top r0 t0 h0 hr0
   have a := parse_le (g.withMemo true) (Nat.le_max_left n m) top _ r0 t1' h1' hr0
   have b := parse_le (g.withMemo true) (Nat.le_max_right n m) top _ r1 t1 h1 hr1
@@ -71,7 +73,7 @@ parser, and if it rejects, so does the memoizing parser -/
 theorem C19_partial_accept (g : Grammar) (hu : Uniform g) (hm : g.memo = false) (sk : Bool) (w : List Char)
     (n top : Nat) :
     (∀ v, run g top sk w n = .tree v → run (g.withMemo true) top sk w n = .tree v) ∧
-    (∀ p, run g top sk w n = .noMatch p → ∃ p', run (g.withMemo true) top sk w n = .noMatch p') := by
+    (∀ p, run g top sk w n = .noMatch p → run (g.withMemo true) top sk w n = .noMatch p) := by
   constructor
   · intro v hrun
     unfold run at hrun ⊢
@@ -88,8 +90,8 @@ theorem C19_partial_accept (g : Grammar) (hu : Uniform g) (hm : g.memo = false) 
     rw [hp] at hrun
     rcases r with v' | _ | _ | _ <;> simp only [] at hrun
     · cases hrun
-    · obtain ⟨t1, h1, _⟩ := C19_partial g hu hm sk w n top _ t0 hp (by simp)
-      rw [h1]; exact ⟨_, rfl⟩
+    · obtain ⟨t1, h1, _, hnm⟩ := C19_partial g hu hm sk w n top _ t0 hp (by simp)
+      rw [h1]; simp only []; rw [hnm]; exact hrun
     all_goals cases hrun
 
 /-! ## the full statement is false: textX's own parser model for the witness grammar -/
